@@ -37,14 +37,20 @@ fn version_of(s: &str) -> http::Version { match s { "HTTP/1.0" => http::Version:
 
 /// Drain a body with a noop waker, recording every frame; bounded number of polls (a busy loop shows up as "spin").
 fn drain<B: http_body::Body<Data = Bytes> + Unpin>(mut body: B, rec: &Rec, side: &str, max_polls: usize) where B::Error: std::fmt::Display {
-    let waker = std::task::Waker::noop();
-    let mut cx = Context::from_waker(waker);
+    // counting waker: a Pending poll that woke nobody has arranged no wake-up (the scripted inner bodies are always ready)
+    struct CountWake(std::sync::atomic::AtomicUsize);
+    impl std::task::Wake for CountWake { fn wake(self: std::sync::Arc<Self>) { self.0.fetch_add(1, std::sync::atomic::Ordering::SeqCst); } fn wake_by_ref(self: &std::sync::Arc<Self>) { self.0.fetch_add(1, std::sync::atomic::Ordering::SeqCst); } }
+    let cw = std::sync::Arc::new(CountWake(std::sync::atomic::AtomicUsize::new(0)));
+    let waker = std::task::Waker::from(cw.clone());
+    let mut cx = Context::from_waker(&waker);
     let mut polls = 0; let mut pend = 0; let mut after_end = 0;
     loop {
         polls += 1;
         if polls > max_polls { rec.ev(json!({"e":"out","side":side,"k":"spin"})); break; }
+        let w0 = cw.0.load(std::sync::atomic::Ordering::SeqCst);
         match Pin::new(&mut body).poll_frame(&mut cx) {
-            Poll::Pending => { pend += 1; if pend > 50 { rec.ev(json!({"e":"out","side":side,"k":"stuck"})); break; } }
+            Poll::Pending => { pend += 1; rec.ev(json!({"e":"out","side":side,"k":"pending","woken": cw.0.load(std::sync::atomic::Ordering::SeqCst) > w0}));
+                               if pend > 50 { rec.ev(json!({"e":"out","side":side,"k":"stuck"})); break; } }
             Poll::Ready(None) => { rec.ev(json!({"e":"out","side":side,"k":"end"})); after_end += 1; if after_end >= 2 { break; } }
             Poll::Ready(Some(Err(e))) => { rec.ev(json!({"e":"out","side":side,"k":"err","msg":e.to_string()})); after_end += 1; if after_end >= 3 { break; } }
             Poll::Ready(Some(Ok(f))) => {
